@@ -606,6 +606,236 @@ Proof.
   specialize (Hdec _ _ Hdd Hd). lia.
 Qed.
 
+(* ---------------------------------------------------------------- eliding `object` is sound *)
+
+Definition app_flag (o : nat) (p : list nat * bool) : list nat := if snd p then fst p ++ [o] else fst p.
+Definition pop_flag (x : nat) (p : list nat * bool) : list nat * bool := (pop_if x (fst p), snd p).
+
+Record obj_inv (o : nat) (st : list (list nat * bool)) : Prop := {
+  oi_absent : forall p, In p st -> ~ In o (fst p);
+  oi_covered : forall p, In p st -> snd p = false -> forall y, In y (fst p) -> exists q, In q st /\ snd q = true /\ In y (fst q);
+  oi_flagged : exists p, In p st /\ snd p = true }.
+
+Lemma mem_app x l1 l2 : mem x (l1 ++ l2) = mem x l1 || mem x l2.
+Proof. unfold mem. apply existsb_app. Qed.
+
+Lemma tail_flag_other o x p : x <> o -> mem x (tail (app_flag o p)) = mem x (tail (fst p)).
+Proof.
+  intros Hx. destruct p as [[|h t] [|]]; unfold app_flag; simpl; auto.
+  rewrite mem_app. simpl. destruct (Nat.eqb_spec x o); [congruence|]. rewrite !orb_false_r. reflexivity.
+Qed.
+
+Lemma in_tails_flag_other o x st : x <> o -> in_tails x (map (app_flag o) st) = in_tails x (map fst st).
+Proof.
+  intros Hx. unfold in_tails. induction st as [|p st IH]; simpl; auto. rewrite IH, tail_flag_other by auto. reflexivity.
+Qed.
+
+Lemma in_tails_flag_obj o st : (exists p, In p st /\ snd p = true /\ fst p <> []) -> in_tails o (map (app_flag o) st) = true.
+Proof.
+  intros [p [Hp [Hf Hn]]]. unfold in_tails. apply existsb_exists. exists (app_flag o p). split; [apply in_map; auto|].
+  destruct p as [[|h t] b]; simpl in *; [congruence|]. subst. unfold app_flag. simpl. rewrite mem_app. simpl.
+  rewrite Nat.eqb_refl. rewrite orb_true_r. reflexivity.
+Qed.
+
+Lemma pick_flag o all all' : in_tails o all' = true -> (forall x, x <> o -> in_tails x all' = in_tails x all) ->
+  forall rest, (forall p, In p rest -> ~ In o (fst p)) ->
+  pick (map head (map (app_flag o) rest)) all' = pick (map head (map fst rest)) all.
+Proof.
+  intros Ho Hother. induction rest as [|p rest IH]; intros Habs; simpl; auto.
+  assert (IH' := IH (fun q Hq => Habs q (or_intror Hq))).
+  assert (Hp := Habs p (or_introl eq_refl)).
+  destruct p as [[|h t] [|]]; unfold app_flag at 1; simpl.
+  - rewrite Ho. exact IH'.
+  - exact IH'.
+  - assert (h <> o) by (intros ->; apply Hp; simpl; auto). rewrite Hother by auto. rewrite IH'. reflexivity.
+  - assert (h <> o) by (intros ->; apply Hp; simpl; auto). rewrite Hother by auto. rewrite IH'. reflexivity.
+Qed.
+
+Lemma pop_flag_app o x p : x <> o -> ~ In o (fst p) -> pop_if x (app_flag o p) = app_flag o (pop_flag x p).
+Proof.
+  intros Hx Ho. destruct p as [[|h t] [|]]; unfold app_flag, pop_flag; simpl; auto.
+  - destruct (Nat.eqb_spec o x); [congruence|reflexivity].
+  - destruct (Nat.eqb h x); reflexivity.
+Qed.
+
+Lemma exhausted_flagged_nonempty o st : obj_inv o st -> exhausted (map fst st) = false ->
+  exists p, In p st /\ snd p = true /\ fst p <> [].
+Proof.
+  intros Hi He. unfold exhausted in He.
+  assert (Hex : exists l, In l (map fst st) /\ is_nil l = false).
+  { clear Hi. induction (map fst st) as [|l ls IH]; simpl in He; [discriminate|].
+    destruct (is_nil l) eqn:El; simpl in He; [destruct (IH He) as [l' [H1 H2]]; exists l'; simpl; auto|exists l; simpl; auto]. }
+  destruct Hex as [l [Hl Hn]]. apply in_map_iff in Hl. destruct Hl as [p [<- Hp]].
+  destruct p as [[|h t] b]; simpl in Hn; [discriminate|].
+  destruct b.
+  - exists (h :: t, true). simpl. repeat split; auto. discriminate.
+  - destruct (oi_covered _ _ Hi _ Hp eq_refl h (or_introl eq_refl)) as [q [Hq [Hf Hin]]].
+    exists q. repeat split; auto. intros E. rewrite E in Hin. destruct Hin.
+Qed.
+
+Lemma obj_inv_pop o x st : obj_inv o st -> in_tails x (map fst st) = false -> obj_inv o (map (pop_flag x) st).
+Proof.
+  intros Hi Ht. constructor.
+  - intros p Hp Ho. apply in_map_iff in Hp. destruct Hp as [p0 [<- Hp0]]. simpl in Ho. apply pop_if_incl in Ho.
+    eapply oi_absent; eauto.
+  - intros p Hp Hf y Hy. apply in_map_iff in Hp. destruct Hp as [p0 [<- Hp0]]. simpl in *.
+    assert (Hyx : y <> x).
+    { intros ->. eapply (remove_absent x (map fst st) Ht (pop_if x (fst p0))); eauto.
+      unfold remove. apply in_map. apply in_map. exact Hp0. }
+    destruct (oi_covered _ _ Hi _ Hp0 Hf y (pop_if_incl _ _ _ Hy)) as [q [Hq [Hqf Hin]]].
+    exists (pop_flag x q). split; [apply in_map; auto|]. split; auto. simpl. apply pop_if_keeps; auto.
+  - destruct (oi_flagged _ _ Hi) as [p [Hp Hf]]. exists (pop_flag x p). split; [apply in_map; auto|auto].
+Qed.
+
+Lemma merge_fuel_S f ls : merge_fuel (S f) ls =
+  if exhausted ls then Ok []
+  else match pick (map head ls) ls with
+       | Some x => match merge_fuel f (remove x ls) with Ok r => Ok (x :: r) | Fail e => Fail e | OutOfFuel => OutOfFuel end
+       | None => Fail Inconsistent
+       end.
+Proof. reflexivity. Qed.
+
+Lemma pick_first_obj o all : in_tails o all = false -> forall st,
+  (forall p, In p st -> app_flag o p = if snd p then [o] else []) -> (exists p, In p st /\ snd p = true) ->
+  pick (map head (map (app_flag o) st)) all = Some o.
+Proof.
+  intros Hall. induction st as [|p st IH]; intros Hshape [q [Hq Hf]]; [destruct Hq|]. simpl.
+  rewrite (Hshape p (or_introl eq_refl)). destruct (snd p) eqn:Ep; simpl.
+  - rewrite Hall. reflexivity.
+  - destruct Hq as [->|Hq]; [congruence|]. apply IH; eauto. intros r Hr. apply Hshape. simpl; auto.
+Qed.
+
+Lemma merge_all_obj o f st : (forall p, In p st -> fst p = []) -> (exists p, In p st /\ snd p = true) ->
+  merge_fuel (S (S f)) (map (app_flag o) st) = Ok [o].
+Proof.
+  intros Hnil Hfl.
+  assert (Hshape : forall p, In p st -> app_flag o p = if snd p then [o] else []).
+  { intros [l b] Hp. specialize (Hnil _ Hp). simpl in Hnil. subst. destruct b; reflexivity. }
+  assert (Hex : exhausted (map (app_flag o) st) = false).
+  { destruct Hfl as [p [Hp Hf]]. unfold exhausted. apply not_true_is_false. intros H. rewrite forallb_forall in H.
+    specialize (H (app_flag o p) (in_map _ _ _ Hp)). rewrite (Hshape _ Hp), Hf in H. discriminate. }
+  assert (Ht : in_tails o (map (app_flag o) st) = false).
+  { unfold in_tails. apply existsb_false. intros l Hl. apply in_map_iff in Hl. destruct Hl as [p [<- Hp]].
+    rewrite (Hshape _ Hp). destruct (snd p); reflexivity. }
+  assert (Hpick : pick (map head (map (app_flag o) st)) (map (app_flag o) st) = Some o).
+  { apply pick_first_obj; auto. }
+  rewrite merge_fuel_S, Hex, Hpick, merge_fuel_S.
+  assert (Hrem : exhausted (remove o (map (app_flag o) st)) = true).
+  { unfold exhausted, remove. rewrite forallb_forall. intros l Hl. apply in_map_iff in Hl. destruct Hl as [l0 [<- Hl0]].
+    apply in_map_iff in Hl0. destruct Hl0 as [p [<- Hp]]. rewrite (Hshape _ Hp). destruct (snd p); simpl; auto.
+    rewrite Nat.eqb_refl. reflexivity. }
+  rewrite Hrem. reflexivity.
+Qed.
+
+Lemma merge_flag o : forall f st, obj_inv o st -> merge_fuel f (map fst st) <> OutOfFuel ->
+  merge_fuel (S f) (map (app_flag o) st) =
+  match merge_fuel f (map fst st) with Ok r => Ok (r ++ [o]) | Fail e => Fail e | OutOfFuel => OutOfFuel end.
+Proof.
+  induction f as [|f IH]; intros st Hi Hne; [simpl in Hne; congruence|].
+  rewrite (merge_fuel_S f (map fst st)) in Hne |- *.
+  destruct (exhausted (map fst st)) eqn:Ex.
+  - rewrite (merge_all_obj o f st); auto.
+    + intros p Hp. apply (exhausted_all_nil _ Ex). apply in_map. exact Hp.
+    + apply (oi_flagged _ _ Hi).
+  - destruct (exhausted_flagged_nonempty _ _ Hi Ex) as [p0 [Hp0 [Hf0 Hn0]]].
+    assert (Ex' : exhausted (map (app_flag o) st) = false).
+    { unfold exhausted. apply not_true_is_false. intros H. rewrite forallb_forall in H.
+      specialize (H _ (in_map (app_flag o) _ _ Hp0)). unfold app_flag in H. rewrite Hf0 in H.
+      destruct (fst p0); [congruence|discriminate]. }
+    rewrite merge_fuel_S, Ex'.
+    rewrite (pick_flag o (map fst st) (map (app_flag o) st)).
+    2:{ apply in_tails_flag_obj. eauto. }
+    2:{ intros x Hx. apply in_tails_flag_other. exact Hx. }
+    2:{ apply (oi_absent _ _ Hi). }
+    destruct (pick (map head (map fst st)) (map fst st)) as [x|] eqn:Pk; auto.
+    destruct (pick_head _ _ _ Pk) as [t [Hxt Htl]].
+    assert (Hxo : x <> o).
+    { intros ->. apply in_map_iff in Hxt. destruct Hxt as [p [Hfp Hp]]. apply (oi_absent _ _ Hi p Hp). rewrite Hfp. simpl; auto. }
+    assert (Hrem' : remove x (map (app_flag o) st) = map (app_flag o) (map (pop_flag x) st)).
+    { unfold remove. rewrite !map_map. apply map_ext_in. intros p Hp. apply pop_flag_app; auto. apply (oi_absent _ _ Hi p Hp). }
+    assert (Hrem : remove x (map fst st) = map fst (map (pop_flag x) st)).
+    { unfold remove. rewrite !map_map. reflexivity. }
+    rewrite Hrem'. rewrite Hrem in Hne |- *.
+    assert (Hne' : merge_fuel f (map fst (map (pop_flag x) st)) <> OutOfFuel).
+    { destruct (merge_fuel f (map fst (map (pop_flag x) st))); congruence. }
+    rewrite (IH (map (pop_flag x) st) (obj_inv_pop _ _ _ Hi Htl) Hne').
+    destruct (merge_fuel f (map fst (map (pop_flag x) st))); reflexivity.
+Qed.
+
+Lemma merge_fuel_agree f g ls : merge_fuel f ls <> OutOfFuel -> merge_fuel g ls <> OutOfFuel -> merge_fuel f ls = merge_fuel g ls.
+Proof.
+  intros Hf Hg. destruct (Nat.le_ge_cases f g).
+  - symmetry. apply merge_fuel_mono; auto.
+  - apply merge_fuel_mono; auto.
+Qed.
+
+Theorem object_elision o ms bs : ms <> [] -> (forall l, In l ms -> ~ In o l) -> ~ In o bs ->
+  (forall b, In b bs -> exists l, In l ms /\ In b l) ->
+  c3linear_merge (map (fun l => l ++ [o]) ms ++ [bs]) =
+  match c3linear_merge (ms ++ [bs]) with Ok r => Ok (r ++ [o]) | Fail e => Fail e | OutOfFuel => OutOfFuel end.
+Proof.
+  intros Hne Habs Hbs Hcov.
+  set (st := map (fun l => (l, true)) ms ++ [(bs, false)]).
+  assert (Hfst : map fst st = ms ++ [bs]).
+  { unfold st. rewrite map_app, map_map. simpl. rewrite map_id. reflexivity. }
+  assert (Hflag : map (app_flag o) st = map (fun l => l ++ [o]) ms ++ [bs]).
+  { unfold st. rewrite map_app, map_map. reflexivity. }
+  assert (Hi : obj_inv o st).
+  { constructor.
+    - intros p Hp. unfold st in Hp. apply in_app_or in Hp. destruct Hp as [Hp|[<-|[]]]; auto.
+      apply in_map_iff in Hp. destruct Hp as [l [<- Hl]]. simpl. auto.
+    - intros p Hp Hf y Hy. unfold st in Hp. apply in_app_or in Hp. destruct Hp as [Hp|[<-|[]]].
+      + apply in_map_iff in Hp. destruct Hp as [l [<- Hl]]. discriminate.
+      + simpl in Hy. destruct (Hcov _ Hy) as [l [Hl Hin]]. exists (l, true). split; [|auto].
+        unfold st. apply in_or_app. left. apply in_map_iff. eauto.
+    - destruct ms as [|l ms']; [congruence|]. exists (l, true). split; auto. unfold st. simpl. auto. }
+  pose proof (c3linear_merge_total (ms ++ [bs])) as Htot. unfold c3linear_merge in Htot. rewrite <- Hfst in Htot.
+  pose proof (merge_flag o _ st Hi Htot) as Hm.
+  rewrite <- Hflag. rewrite <- Hfst. unfold c3linear_merge.
+  rewrite <- Hm. apply merge_fuel_agree.
+  - apply merge_fuel_enough. lia.
+  - rewrite Hm. destruct (merge_fuel (S (total (map fst st))) (map fst st)); congruence.
+Qed.
+
+Lemma map_res_obj {A} o (F G : A -> res (list nat)) l : (forall x, In x l -> F x = add_obj o (G x)) ->
+  map_res F l = match map_res G l with Ok ms => Ok (map (fun m => m ++ [o]) ms) | Fail e => Fail e | OutOfFuel => OutOfFuel end.
+Proof.
+  induction l as [|x l IH]; simpl; intros H; auto.
+  rewrite (H x) by auto. rewrite IH by auto. destruct (G x); simpl; auto. destruct (map_res G l); reflexivity.
+Qed.
+
+Theorem py_mro_obj_eq t o : ordered t -> List.length t <= o -> forall f c, c < List.length t ->
+  py_mro_obj f t o c = add_obj o (py_mro f t c).
+Proof.
+  intros Ho Hlen. induction f as [|f IH]; intros c Hc; auto. simpl.
+  destruct (cbases (nth_cls t c)) as [|b0 bs] eqn:Eb; auto.
+  assert (Hlt : forall b, In b (b0 :: bs) -> b < c) by (intros b Hb; apply (Ho c b Hc); rewrite Eb; exact Hb).
+  rewrite (map_res_obj o (py_mro_obj f t o) (py_mro f t)).
+  2:{ intros b Hb. apply IH. specialize (Hlt _ Hb). lia. }
+  destruct (map_res (py_mro f t) (b0 :: bs)) as [ms| |] eqn:Em; auto.
+  apply map_res_ok in Em.
+  assert (Hwf : forall b m, In b (b0 :: bs) -> py_mro f t b = Ok m -> wf_mro b m).
+  { intros b m Hb Hm. apply (py_mro_wf t Ho f); auto. specialize (Hlt _ Hb). lia. }
+  unfold cpython_mro_impl. destruct bs as [|b1 bs].
+  - destruct (Forall2_single _ _ _ Em) as [y [-> Hy]]. reflexivity.
+  - destruct (Forall2_two _ _ _ _ _ Em) as [y [y' [ys' Hms]]]. rewrite Hms. cbn [map]. rewrite <- Hms.
+    destruct (has_dup (b0 :: b1 :: bs)); auto.
+    rewrite <- !merge_eq_pmerge.
+    change (((y ++ [o]) :: (y' ++ [o]) :: map (fun m => m ++ [o]) ys')) with (map (fun m => m ++ [o]) (y :: y' :: ys')).
+    rewrite <- Hms. rewrite object_elision.
+    + destruct (c3linear_merge (ms ++ [b0 :: b1 :: bs])); reflexivity.
+    + rewrite Hms. discriminate.
+    + intros l Hl Hin. destruct (Forall2_In_r _ _ _ Em _ Hl) as [b [Hb Hpy]].
+      destruct (Hwf _ _ Hb Hpy) as [_ [_ Hle]]. specialize (Hle _ Hin). specialize (Hlt _ Hb). lia.
+    + intros Hin. specialize (Hlt _ Hin). lia.
+    + intros b Hb. destruct (Forall2_In_l _ _ _ Em _ Hb) as [m [Hm Hpy]]. exists m. split; auto.
+      destruct (Hwf _ _ Hb Hpy) as [[r ->] _]. simpl; auto.
+Qed.
+
+Theorem cpython_mro_obj_eq t c : ordered t -> c < List.length t ->
+  cpython_mro_obj t c = add_obj (List.length t) (cpython_mro t c).
+Proof. intros Ho Hc. unfold cpython_mro_obj, cpython_mro. apply py_mro_obj_eq; auto. Qed.
+
 (* ---------------------------------------------------------------- inherited members *)
 Open Scope string_scope.
 
@@ -772,3 +1002,6 @@ Proof.
   - apply reach_step. simpl. auto.
   - eapply reach_more with (b := 0); [simpl; auto|]. apply reach_step. simpl. auto.
 Qed.
+
+Example diamond_with_object : cpython_mro_obj diamond 3 = Ok [3; 1; 2; 0; 4].
+Proof. reflexivity. Qed.
